@@ -9,6 +9,9 @@ Rust sources modelled (ellbur/totalmapper):
   src/remapping_loop.rs     do_remapping_loop_all_devices (list -> flag_excluded -> keep non-excluded),
                             filter_devices_verbose, flag_excluded, flag_excluded_input_devices
 
+Everything lives in namespace `TmVerif.Listing` (generic names such as `splitLines`, `startsWith`, `Env`
+would otherwise clash with other models of this library).
+
 Text is `List Char` (one `Char` per Unicode scalar value, as Rust's `str::chars`).  Every prefix
 the Rust code slices off (`line[9..]`, `line[6..]`, `line[7..]`) is pure ASCII, so a byte offset
 equals a character offset and the slice can never fall inside a multi-byte character:
@@ -29,7 +32,7 @@ Deliberate limits of the model (documented, not silently defaulted):
     listing (`?`) before anything is selected.  `Env.resolve` models the runs where they succeed.
 -/
 
-namespace TmVerif
+namespace TmVerif.Listing
 
 /-! ## Text primitives -/
 
@@ -354,4 +357,4 @@ def selectNamed (env : Env) (text : List Char) (excludes : List (List Char)) (sk
         else true
       | none => false
 
-end TmVerif
+end TmVerif.Listing
